@@ -14,11 +14,7 @@ package parser
 
 // nlcount(d, k) = number of newline runes in d[0..k); the lexer's line number is tied to it, which
 // bounds every reported line by the number of lines of the input (C11 "within the input", C19).
-//@ spec func nlcount(d []rune, k int) int
-//@ spec func nlAt(d []rune, k int) bool
-//@ axiom nl.zero: forall d []rune {nlcount(d, 0)} :: nlcount(d, 0) == 0
-//@ axiom nl.step: forall d []rune, k int {nlAt(d, k)} :: 0 <= k && k < len(d) ==> nlAt(d, k) && nlcount(d, k + 1) == nlcount(d, k) + (d[k] == 10 ? 1 : 0)
-//@ axiom nl.mono: forall d []rune, i int, j int {nlcount(d, i), nlcount(d, j)} :: 0 <= i && i <= j && j <= len(d) ==> nlcount(d, i) <= nlcount(d, j)
+// (nlcount, nlAt and their axioms live in /verif/spec/std.spec)
 //@ type *Lexer invariant l: l.line + (l.isEOL ? 1 : 0) == nlcount(l.data, l.offset)
 
 // measure used by every scanning loop: runes left, plus one while the current rune is not EOF
